@@ -1,5 +1,5 @@
 #!/usr/bin/env python3
-"""Runs miri/tests/ub.rs under Miri (preferred) or AddressSanitizer and prints
+"""Runs miri/tests/ub.rs under Miri and under AddressSanitizer (whichever are usable) and prints
 verdict lines for ./check:
 
     SANITIZER ok tool=<miri|asan> groups=<n> cases=<n> wall=<s>s
@@ -121,23 +121,31 @@ def main():
         return 0
     shutil.copyfile(lock, os.path.join(HERE, "Cargo.lock"))
     os.makedirs(LOGS, exist_ok=True)
-    tool, why = None, []
-    for cand in (["miri", "asan"] if want == "auto" else [want]):
-        ok, tail = try_build(cand, rotate)
-        if ok:
-            tool = cand
-            break
-        why.append(f"{cand}: {tail}")
-    if tool is None:
+    # auto: Miri, and AddressSanitizer + LeakSanitizer as a second, native opinion
+    # (about 20 s); either alone is enough for a verdict.
+    rc_all, ran, why = 0, [], []
+    for tool in (["miri", "asan"] if want == "auto" else [want]):
+        ok, tail = try_build(tool, rotate)
+        if not ok:
+            why.append(f"{tool}: {tail}")
+            continue
+        ran.append(tool)
+        rc_all |= run_tool(tool, groups, rotate, timeout)
+    if not ran:
         print("SANITIZER unavailable " + " ;; ".join(why)[:600])
         return 0
+    return rc_all
+
+
+def run_tool(tool, groups, rotate, timeout):
+    t0 = time.time()
     # Groups run as parallel processes of the one test binary built above.
     procs = []
     for g in groups:
         log = open(os.path.join(LOGS, f"{tool}-{g}.log"), "w")
         cmd = ["timeout", str(timeout)] + cargo_cmd(tool, ["--", "--exact", g, "--test-threads=1", "--nocapture"])
         procs.append((g, log, subprocess.Popen(cmd, cwd=HERE, env=env_for(tool, rotate), stdout=log, stderr=subprocess.STDOUT)))
-        if tool == "miri" and len(procs) == 1:
+        if len(procs) == 1:
             time.sleep(2)  # let the first one take cargo's lock and find everything fresh
     bad, cases, timeouts = [], 0, []
     for g, log, p in procs:
@@ -159,6 +167,8 @@ def main():
         print(f"SANITIZER unavailable tool={tool} time box of {timeout}s exceeded in {','.join(timeouts)} (other groups: {'ub reported' if bad else 'clean'}); set UB_FRACTION to rotate")
     if not bad and not timeouts:
         print(f"SANITIZER ok tool={tool} groups={len(groups)} cases={cases} rotate={rotate} wall={wall}s")
+    elif bad and all(b[1] != "-" for b in bad) and not timeouts:
+        print(f"SANITIZER ok-except-classified tool={tool} groups={len(groups)} cases={cases} rotate={rotate} wall={wall}s")
     return 1 if bad else 0
 
 
